@@ -187,6 +187,63 @@ def gen_edits(rng, tier, base):
             "meta": {"files": len(names)}}
 
 
+def gen_ptb_sentence(rng, tier, sid):
+    """PTB-like sentence: co-indexed filler constituents and trace tokens."""
+    k = model.swarm_knobs(rng, tier, allow=("ascii",), continuous=True)
+    k["n_min"], k["n_max"] = 4, max(5, k["n_max"])
+    k["labels"] = ["S", "NP", "VP", "WHNP", "SBAR"]
+    k["unary"] = 0.1
+    s = model.gen_sentence(rng, k, sid)
+    cons = model.constituents(s["root"])[1:]
+    npairs = rng.choice([1, 2, 2, 3])
+    for idx in range(1, npairs + 1):
+        if not cons:
+            break
+        filler = rng.choice(cons)
+        if not filler[0][-1:].isdigit():
+            filler[0] = filler[0] + "-%d" % idx
+        inside = set(model.tokset(filler))
+        cands = [i for i in range(1, len(s["tokens"]) + 1)
+                 if s["tokens"][i - 1][1] != "-NONE-" and (i not in inside or rng.random() < 0.2)]
+        if not cands:
+            continue
+        for t in rng.sample(cands, min(len(cands), rng.choice([1, 1, 2]))):
+            s["tokens"][t - 1][0] = rng.choice(["*T*", "*", "*ICH*"]) + "-%d" % idx
+            s["tokens"][t - 1][1] = "-NONE-"
+    if rng.random() < 0.3:
+        c = rng.choice(cons) if cons else None
+        if c is not None and "=" not in c[0] and not c[0][-1:].isdigit():
+            c[0] += "=%d" % rng.randint(1, 2)
+    return s
+
+
+def gen_ptb(rng, tier, base):
+    ops = []
+    n = rng.choice([2, 3, 4])
+    sents = [gen_ptb_sentence(rng, tier, j + 1) for j in range(n)]
+    if rng.random() < 0.5:
+        sents.append(model.clone(sents[0]))
+    for j, s in enumerate(sents):
+        params = {}
+        r = rng.random()
+        if r < 0.35:
+            params["slash"] = True
+        elif r < 0.5:
+            params["slash"] = rng.choice(["*T*", "*T*,*"])
+        if rng.random() < 0.4:
+            params["keepcoindex"] = True
+        if rng.random() < 0.4:
+            params["keepall"] = True
+        elif rng.random() < 0.4:
+            params["keep"] = rng.choice(["*T*", "*,*ICH*", "*T*,*"])
+        ops.append(["build", "t", s, rng.randrange(1 << 30)])
+        if rng.random() < 0.3:
+            ops.append(["trans", "t", "negra_mark_heads", {}])
+            ops.append(["trans", "t", "binarize", {}])
+        ops.append(["trans", "t", "ptb_delete_traces", params])
+    return {"kind": "ptb", "ops": ops, "files": {}, "on_error": "continue", "meta": {}}
+
+
 def gen_failing(rng, tier, base):
     """A session that contains a call failing for a legitimate reason (K9)."""
     which = rng.choice(["bad_brackets", "disco_to_brackets", "noncf_lopar", "bad_preset",
@@ -248,8 +305,10 @@ def gen_session(rng, tier, idx):
         s = gen_analysis(rng, tier, base, cli=rng.random() < 0.4)
     elif r < 0.70:
         s = gen_transitions(rng, tier, base, cli=rng.random() < 0.4)
-    elif r < 0.85:
+    elif r < 0.80:
         s = gen_edits(rng, tier, base)
+    elif r < 0.90:
+        s = gen_ptb(rng, tier, base)
     else:
         s = gen_failing(rng, tier, base)
     s["base"] = base
